@@ -25,18 +25,29 @@ import xml.etree.ElementTree as ET
 from .. import core, build_repo
 
 ID = "C28"
-LEVEL = "proof"
+LEVEL = "other"
 RULE = ("cases = (input program, option set) pairs run through the built cppcheck (--enable=all --inconclusive, --xml); inputs: "
-        "corpus/C28 witnesses, /repo/samples, /repo/test/cfg, generated snippets that target one emitter each; a case is "
-        "non-trivial when it reports at least one finding id other than the always-present information ids; "
-        "distinct = distinct (file content, options)")
-EXPLANATION = ("Lean theorems over the table extracted from the current source: every statically known finding id is in the "
-               "--errorlist output of the built binary, exempt for a stated reason, or one of the listed known-unlisted ids "
-               "(full statement refuted: counterexample theorem); every emitting function is reached from "
-               "CppCheck::getErrorMessages in the extracted call graph or its id is emitted by one that is. Tie: translator "
-               "(text scanner cross-checked against clang's AST, fail closed) + observed ids of real runs must be in the table. "
-               "Outside: ids produced by addons / clang-tidy / rule files / library configuration (exempt by the property), "
-               "gui/, tools/, htmlreport/.")
+        "corpus/C28 witnesses (positive and negative), /repo/samples, /repo/test/cfg, code literals mined from /repo/test/test*.cpp "
+        "(all 11k in the thorough tier), generated snippets; a case is non-trivial when it reports at least one finding id other "
+        "than the always-present information ids; distinct = distinct (file content, options)")
+EXPLANATION = ("PARTIAL. Proved (Lean, kernel decision over the whole table extracted from the current source, re-proved on every run): "
+               "every row of the emitter table has an id that the built binary's --errorlist prints, or is exempt for a stated reason, "
+               "or is one of the listed known-unlisted ids (the full statement is refuted: counterexample theorem, 24 ids with witness "
+               "programs); every emitting function is reached from CppCheck::getErrorMessages in the extracted (static, over-approximating) "
+               "call graph or its id is emitted by one that is; every printed id is explained by a reached emitter. NOT proved: that every "
+               "id cppcheck can report for some input is a row of the table - that is the translator's completeness (text scanner x clang "
+               "AST, abstract string evaluator, closed table of dynamic rules), an assumption validated only by: the two extractions "
+               "agreeing (fail closed), errorlist_explained, every id the test-suite expects being in the table, and every id observed in "
+               "real runs being in the table. Narrowings of the sentence: debug/internal severities are exempt although --debug-warnings "
+               "shows debug ids; ids emitted only by cli/ (unmatchedSuppression, checkersReport, cppcheckError) are outside; 5 ids the "
+               "string evaluator over-approximates are excluded as infeasible, each guarded by a structural check of the code shape and "
+               "a negative witness. Outside: addon / clang-tidy / rule-file / library-configuration ids (exempt by the property), gui/, "
+               "tools/, htmlreport/.")
+ASSUMPTIONS = ["translator completeness: every id that an execution of the built binary can put into a reported ErrorMessage is the id of a row of "
+               "Gen.ErrorIds.emitters or matches one of the 7 dynamic rule kinds (not a theorem; validated by cross-extraction, "
+               "errorlist_explained, the test-suite id probe and observed ids)",
+               "clang++-14's AST of the -D configuration of the build equals what g++ compiled",
+               "the 5 infeasibleIds are never emitted (structural guards + negative witnesses, no proof)"]
 THEOREMS = ["Cppcheck.ErrorIds.ids_subset_partial", "Cppcheck.ErrorIds.ids_subset_counterexample",
             "Cppcheck.ErrorIds.emitters_listed_partial", "Cppcheck.ErrorIds.errorlist_explained",
             "Cppcheck.ErrorIds.reached_eq", "Cppcheck.ErrorIds.reach_sound", "Cppcheck.ErrorIds.dynamic_rules_exempt"]
@@ -1580,6 +1591,12 @@ class Resolver:
                 parts = f["cq"].split("::")
                 for i in range(len(parts) - 1, 0, -1):
                     names.append("::".join(parts[:i]) + "::" + t)
+        if not ev.get("objcls") and ev.get("name") and re.match(r"^\w+$", ev["name"]) and ev["name"] not in names:
+            # call that comes out of a macro expansion: the source text is the macro's, the referenced declaration's name is right
+            names.append(ev["name"])
+            parts = f["cq"].split("::")
+            for i in range(len(parts) - 1, 0, -1):
+                names.append("::".join(parts[:i]) + "::" + ev["name"])
         nargs = len(ev.get("args", []))
         out = []
         for nm in names:
@@ -1948,7 +1965,7 @@ def extract_all(fresh=False, verbose=False):
     return dict(emitters=R.emitters + ie_ems + tw_ems, dynamic=R.dynamic, edges=sorted(edges), roots=root, problems=problems, registered=reg,
                 nfuncs=len(R.list), ncands=sum(len(s["cands"]) for s in scans.values()), explained=explained, dump_stats=stats,
                 njobs=len(jobs), times=dict(text=round(t1 - t0, 1), ast=round(t2 - t1, 1), resolve=round(time.time() - t2, 1)),
-                ietab=ietab, resolver=R)
+                ietab=ietab, resolver=R, scans=scans)
 
 
 if __name__ == "__main__" and len(sys.argv) > 1 and sys.argv[1] == "extract":
@@ -1972,6 +1989,7 @@ def enc(s):
     return n
 
 
+COVERAGE_FLOOR = 0.5     # thorough tier: fraction of the non-exempt table ids some run must report (measured: see docs)
 PASSES = 2      # must equal `passes` in lean/Cppcheck/Props/C28.lean
 SEVS = ("none", "error", "warning", "style", "performance", "portability", "information", "debug", "internal")
 KIND_LEAN = {"library-function": "libraryFunction", "addon": "addon", "clang-tidy": "clangTidy", "rule-file": "ruleFile",
@@ -2247,6 +2265,81 @@ def snippets(rng, n):
     return out
 
 
+def body_text(scans, qual):
+    """whitespace-free text of the (first) function the text layer calls `qual`"""
+    for sc in scans.values():
+        for f in sc["fns"]:
+            if f.qual == qual and f.kind == "fn":
+                return re.sub(r"\s+", "", sc["full"][f.body_start:f.body_end + 1])
+    return None
+
+
+def infeasible_guards(X, scans, lists):
+    """one structural guard per entry of infeasibleIds: the code shape the infeasibility argument of docs/C28.md relies on"""
+    probs = []
+    R = X["resolver"]
+    want = set(lists["infeasibleIds"])
+    known = {"constVariableCallback", "iterateByValueCallback", "uninitDerivedMemberVarNoCtor", "uninitDerivedMemberVarPrivateNoCtor",
+             "uninitMemberVarPrivateNoCtor"}
+    for i in sorted(want - known):
+        probs.append("infeasibleIds entry %s has no guard in vlib/props/c28.py" % i)
+    if "constVariableCallback" in want:
+        b = body_text(scans, "CheckOther::constVariableError")
+        need = ['conststd::stringvartype(var->isArgument()?"Parameter":"Variable");', 'std::stringid="const"+vartype;',
+                'if(var->isArgument()&&function&&function->functionPointerUsage){']
+        if b is None or any(n not in b for n in need) or b.count('"Callback"') != 1 or \
+           not re.search(r'if\(var->isArgument\(\)&&function&&function->functionPointerUsage\)\{[^{}]*id\+="Callback";', b):
+            probs.append("constVariableCallback: CheckOther::constVariableError no longer appends \"Callback\" only under var->isArgument() "
+                         "(which also selects \"Parameter\")")
+    if "iterateByValueCallback" in want:
+        b = body_text(scans, "CheckOther::passedByValueError")
+        c = body_text(scans, "CheckOther::checkPassByReference")
+        if b is None or 'std::stringid=isRangeBasedFor?"iterateByValue":"passedByValue";' not in b or b.count('"Callback"') != 1 or \
+           'if(var&&var->scope()&&var->scope()->function&&var->scope()->function->functionPointerUsage){id+="Callback";' not in b:
+            probs.append("iterateByValueCallback: CheckOther::passedByValueError no longer appends \"Callback\" only under var->scope()->function")
+        if c is None or "constboolisRangeBasedFor=astIsRangeBasedForDecl(var->nameToken());" not in c or \
+           len(re.findall(r"passedByValueError\(var,inconclusive,isRangeBasedFor\);", c)) != c.count("passedByValueError("):
+            probs.append("iterateByValueCallback: isRangeBasedFor is no longer astIsRangeBasedForDecl(var->nameToken()) at every call of passedByValueError")
+    noctor = want & {"uninitDerivedMemberVarNoCtor", "uninitDerivedMemberVarPrivateNoCtor", "uninitMemberVarPrivateNoCtor"}
+    if noctor:
+        ncalls = 0
+        for f in R.list:
+            for ev in f["events"]:
+                if ev["k"] == "call" and ev.get("name") == "uninitVarError" and len(ev.get("args", [])) == 8:
+                    ncalls += 1
+                    a = [re.sub(r"\s+", "", x.get("text", "")) for x in ev["args"]]
+                    last = "false" if ev["args"][7].get("default") else a[7]
+                    if last == "false":
+                        continue
+                    if last != "true" or a[1] != "false" or a[5] != "false":
+                        probs.append("%s: %s:%s calls uninitVarError(noCtor=%s) with isprivate=%s derived=%s" %
+                                     ("/".join(sorted(noctor)), os.path.relpath(ev["file"], REPO) if ev.get("file") else "?", ev.get("line"), last, a[1], a[5]))
+        if ncalls < 3:
+            probs.append("uninit*NoCtor guard: only %d calls of CheckClass::uninitVarError/8 found" % ncalls)
+    return probs
+
+
+def test_suite_ids():
+    """ids the repository's own tests expect in messages: `... [someId]\n"` in test/test*.cpp (an independent list of reportable ids)"""
+    ids = {}
+    for p in sorted(glob.glob(os.path.join(REPO, "test", "test*.cpp"))):
+        t = open(p, encoding="utf-8", errors="replace").read()
+        for m in re.finditer(r' \[([A-Za-z][A-Za-z0-9_-]*)\](?:\\n)?"', t):
+            ids.setdefault(m.group(1), os.path.basename(p))
+    return ids
+
+
+def parse_errors(xml):
+    """(id, severity, first file) triples of a cppcheck --xml stream (tolerant: also works on a truncated stream)"""
+    out = []
+    for m in re.finditer(r'<error id="([^"]*)" severity="([^"]*)"([^>]*)>(.*?)(?=<error |</errors>|\Z)', xml, re.S):
+        f0 = re.search(r'file0="([^"]*)"', m.group(3))
+        loc = re.search(r'<location file="([^"]*)"', m.group(4))
+        fn = (f0.group(1) if f0 else (loc.group(1) if loc else ""))
+        out.append((m.group(1).replace("&lt;", "<").replace("&gt;", ">").replace("&amp;", "&"), m.group(2), os.path.basename(fn)))
+    return out
+
+
 def classify(i, T):
     """known-finding classes: the id is one of knownUnlisted of Props/C28.lean AND has a witness in the corpus; the class is the
     emitting class recorded with the witness (one known-finding key per class)"""
@@ -2283,6 +2376,29 @@ def run(ctx, res):
               "" if not problems else "%d emitting sites / shapes not resolved (fail closed):\n%s" % (len(problems), "\n".join(problems[:40])))
     res.oblig("T:tables-plausible", len(T["rows"]) >= 500 and len(T["errorlist"]) >= 300 and len(T["roots"]) == 1 and len(T["edges"]) >= 1500,
               "translation", "emitters=%d errorlist=%d roots=%d edges=%d" % (len(T["rows"]), len(T["errorlist"]), len(T["roots"]), len(T["edges"])))
+    res.assumptions = list(ASSUMPTIONS)
+    gp = infeasible_guards(X, X["scans"], lists)
+    res.oblig("T:infeasible-ids-guards", not gp, "translation", "\n".join(gp))
+    # independent list of reportable ids: what the repository's own tests expect in messages
+    table_ids0 = set(r[5] for r in T["rows"])
+    active_text = "\n".join(sc["full"] for sc in X["scans"].values())
+    raw_text = "\n".join(sc["src"] for sc in X["scans"].values())
+    tids = test_suite_ids()
+    tmiss, tinactive, tonly = [], [], []
+    for i, where in sorted(tids.items()):
+        if i in table_ids0 or dynamic_match(i):
+            continue
+        if re.search(r'(?<![\[\w])\s*"%s"' % re.escape(i), active_text) and re.search(r'[^\[]"%s"' % re.escape(i), active_text):   # not just a JSON / map key `x["..."]`
+            tmiss.append("%s (expected by test/%s)" % (i, where))
+        elif ('"%s"' % i) in raw_text:
+            tinactive.append(i)       # only in code the build configuration compiles out (CHECK_INTERNAL, HAVE_RULES)
+        else:
+            tonly.append(i)           # test fixture ids that no lib/cli source mentions
+    res.extra["test_suite_probe"] = dict(ids_expected_by_tests=len(tids), in_inactive_configuration=tinactive, test_only=tonly)
+    res.oblig("T:test-suite-ids-in-emitter-table", not tmiss and len(tids) >= 300, "translation",
+              "ids the test-suite expects cppcheck to report, that occur as literals in active lib/cli code, but have no emitter: %s" % tmiss)
+    res.oblig("status:full-statement-" + ("refuted-by-witness-" + T["witness"] if T["witness"] else "not-refuted-counterexample-theorem-is-vacuous"),
+              True, "translation", "")
     res.extra["translate_s"] = round(time.time() - t0, 1)
     # ---- theorems ------------------------------------------------------------------------------------------------
     core.prove(ctx, res, MODULES, THEOREMS)
@@ -2308,7 +2424,10 @@ def run(ctx, res):
     cli_only = set(i for i in table_ids if all(r[3] == "cli" for r in T["rows"] if r[5] == i))
     cases = []
     for w in load_witnesses():
-        cases.append(dict(tag="w_" + w["id"], files=w["files"], args=w["args"] + w.get("analyse", []), expect=w["id"], origin="corpus"))
+        if w.get("absent"):
+            cases.append(dict(tag="n_" + w["id"], files=w["files"], args=w["args"] + w.get("analyse", []), absent=w["id"], origin="corpus"))
+        else:
+            cases.append(dict(tag="w_" + w["id"], files=w["files"], args=w["args"] + w.get("analyse", []), expect=w["id"], origin="corpus"))
     samples = sorted(glob.glob(os.path.join(REPO, "samples", "*", "*.c*")))
     cfgs = sorted(glob.glob(os.path.join(REPO, "test", "cfg", "*.c")) + glob.glob(os.path.join(REPO, "test", "cfg", "*.cpp")))
     pick = samples if thorough else rng.sample(samples, min(14, len(samples)))
@@ -2329,7 +2448,7 @@ def run(ctx, res):
         ids, rc, bad = run_cppcheck(ctx, d, c["args"], timeout=300 if thorough else 90)
         return c, ids, rc, bad
 
-    missed, sev_mism, broken = {}, {}, []
+    missed, sev_mism, broken, feasible = {}, {}, [], []
     viol = {}
     seen_ids = set()
     with concurrent.futures.ThreadPoolExecutor(max_workers=3) as ex:
@@ -2342,6 +2461,8 @@ def run(ctx, res):
             res.count("ids-per-run:%s" % min(len(idset), 8))
             if bad or rc == -999:
                 broken.append("%s: %s" % (c["tag"], bad or "timeout"))
+            if c.get("absent") and c["absent"] in [i for i, _ in idset]:
+                feasible.append("%s is reported for %s" % (c["absent"], c["tag"]))
             if c.get("expect") and c["expect"] not in [i for i, _ in idset]:
                 res.count("witness-no-longer-reports-its-id")
                 res.notes.append("witness %s no longer makes cppcheck report %s" % (c["tag"], c["expect"]))
@@ -2357,8 +2478,66 @@ def run(ctx, res):
                 if not ok and i not in viol:
                     viol[i] = (c, sv)
             res.traces_validated += 1
+    # ---- code literals of /repo/test/test*.cpp (the inputs of the repository's unit tests), in batches through one process each
+    from . import c27
+    mined = c27.mined_snippets()
+    pick = mined if thorough else rng.sample(mined, min(260, len(mined)))
+    nb = 0
+    for k in range(0, len(pick), 400):
+        batch = pick[k:k + 400]
+        d = os.path.join(ctx.tmp, "mined%d" % (k // 400))
+        os.makedirs(d, exist_ok=True)
+        srcs = {}
+        for name, base, code in batch:
+            open(os.path.join(d, name), "w", encoding="utf-8", errors="replace").write(code)
+            srcs[name] = code
+        for attempt in range(20):
+            try:
+                rc, out, err = core.sh([ctx.cppcheck] + BASE_ARGS + ["--check-library", "--debug-warnings", "-j", "3", "."], cwd=d, timeout=1200)
+                break
+            except OSError:
+                time.sleep(3)
+        else:
+            raise core.CheckBroken("cannot execute %s" % ctx.cppcheck)
+        nb += 1
+        if rc == -999:
+            res.count("mined-batch-timeout")
+        per_file = {}
+        for (i, sv, fn) in parse_errors(err):
+            per_file.setdefault(fn, set()).add((i, sv))
+            seen_ids.add(i)
+            dyn = dynamic_match(i) if i not in table_ids else None
+            c = dict(tag="m_" + fn, files={fn: srcs.get(fn, "")} if fn in srcs else dict(list(srcs.items())[:1]), args=["--check-library", "--debug-warnings", fn or "."], origin="mined")
+            if i not in table_ids and not dyn:
+                missed.setdefault(i, c["tag"])
+            if i in table_ids and sv not in table_pairs[i] and "unknown" not in table_pairs[i]:
+                sev_mism.setdefault((i, sv), c["tag"])
+            ok = i in elset or sv in ("debug", "internal") or i in exempt_ids or i in cli_only or dyn is not None
+            if not ok and i not in viol:
+                viol[i] = (c, sv)
+            if i in lists["infeasibleIds"]:
+                feasible.append("%s is reported for mined snippet %s" % (i, fn))
+        for name, base, code in batch:
+            got = sorted(per_file.get(name, ()))
+            nontriv = any(i not in ALWAYS for i, _ in got)
+            res.case("mined|" + name, nontriv, dict(case=name, origin="test/test%s.cpp" % base, reported=[i for i, _ in got][:10]) if nontriv and len(res.samples) < 10 else None)
+            res.count("origin:mined")
+        res.traces_validated += len(batch)
+    res.oblig("T:infeasible-ids-stay-unreported", not feasible, "correspondence", "; ".join(feasible[:5]))
+    # how much of the table the runs exercised (the tie is one-directional: only reported ids are compared)
+    nonexempt = sorted(set(r[5] for r in T["rows"] if not row_exempt(r, lists)))
+    never = [i for i in nonexempt if i not in seen_ids]
+    frac = 1.0 - len(never) / max(1, len(nonexempt))
+    res.extra["non_exempt_ids"] = len(nonexempt)
+    res.extra["non_exempt_ids_observed_fraction"] = round(frac, 3)
+    res.extra["non_exempt_ids_never_observed"] = never
+    if thorough:
+        res.oblig("C:thorough-corpus-exercises-the-table", frac >= COVERAGE_FLOOR, "correspondence",
+                  "only %.0f%% of the %d non-exempt table ids were reported by some run (floor %.0f%%); never observed: %s" %
+                  (100 * frac, len(nonexempt), 100 * COVERAGE_FLOOR, never[:40]))
     res.extra["distinct_ids_observed"] = len(seen_ids)
-    res.extra["runs"] = len(cases)
+    res.extra["runs"] = len(cases) + nb
+    res.extra["mined_snippets_run"] = len(pick)
     res.oblig("C:observed-ids-in-emitter-table", not missed, "correspondence",
               "" if not missed else "cppcheck reported ids the translator has no emitter for (a site was missed): %s" % sorted(missed.items())[:8])
     res.oblig("C:observed-severities-in-emitter-table", not sev_mism, "correspondence",
